@@ -1,4 +1,5 @@
 import importlib
+import re
 import os
 import sys
 
@@ -23,7 +24,7 @@ def load():
     reg = {}
     pdir = os.path.join(VERIF, "props")
     for f in sorted(os.listdir(pdir)):
-        if f.startswith("c") and f.endswith(".py"):
+        if re.fullmatch(r"c\d\d\.py", f):
             m = importlib.import_module("props." + f[:-3])
             pid = f[:-3].upper()
             prop = m.PROP
@@ -32,4 +33,7 @@ def load():
                 mp = owner_modpath(owners[inst["file"]])
                 inst["fq"] = (mp + "::" if mp else "") + "verif_kani_" + inst["file"] + "::" + inst["fn"]
             reg[pid] = prop
+    roles = sorted({r for p in reg.values() for r in p.get('kf_roles', [])})
+    for p in reg.values():
+        p['kf_roles_all'] = roles
     return reg
